@@ -9,7 +9,7 @@ props = [json.loads(l) for l in open(os.path.join(V, "properties.jsonl"))]
 CLAIMED = {
     "C05": dict(level="model_checking", tech="TLA+ spec (Deps.tla/Container.tla) model-checked by TLC; every enumerated configuration replayed on the real tool (model-based testing); recorded runs validated against the spec",
                 text="TLC enumerates exhaustively all small dependency graphs (2-3 services, tag and decorator edges, todo placeholders) with every scope assignment, checks the design invariant ScopeRuleSound on them, and prints for each the verdict and the <shared, contextual> pairs the specification demands; each configuration is run on the tool built from /repo and the Scope diagnostics are compared. Exhaustive within the stated bounds; beyond them only sampled.",
-                note="Trusted: TLC, the YAML concretiser, the report parser (attribution of the numbered error list by the printed per-rule counts). Run-time half (instance identities) is decided by the Container families."),
+                note="Trusted: TLC, the YAML concretiser, the report parser (attribution of the numbered error list by the printed per-rule counts), probe + fixtures for the run-time half (all histories up to length 3 of Get/GetInContext/GetTaggedBy over accepted 2-service (thorough 3-service) graphs, and the C02 build family)."),
     "C06": dict(level="model_checking", tech="TLA+ spec (Deps.tla) model-checked by TLC; every enumerated configuration replayed on the real tool",
                 text="TLC enumerates every way 8 reference sites (parameter chunk single/multi/after %%, constructor argument, call argument, field, decorator argument, for %param% and @service) can point at a declared, a todo or an undeclared name (undeclared names collide with names of the other namespace), plus all declared-set variations down to no parameters at all; expected <referrer, missing> pairs come from MissingParams/MissingServices; the tool's diagnostics must name exactly those.",
                 note="Trusted: TLC, concretiser, report parser. The run-time consequence (no 'does not exist' from an accepted container) is checked by the Container families."),
@@ -19,6 +19,18 @@ CLAIMED = {
     "C16": dict(level="model_checking", tech="TLA+ spec (Deps.tla OutputDiag with flags) model-checked by TLC; every (configuration, flag set) replayed on the real tool and the four runs compared with the spec and with each other",
                 text="For every configuration of the defect-subset family X and the reference families N/M and each of the four flag sets: accepted iff the specification leaves no non-ignored diagnostic; non-ignored error lists identical to the run without flags; ignored rule silent; output sha256 identical whenever accepted without flags. FlagsOnlyNarrow is checked by TLC on the model.",
                 note="Trusted: TLC, concretiser, report parser."),
+    "C02": dict(level="model_checking", tech="TLA+ run-time semantics (Container.tla: Build = cache lookup, creation, fields, calls/withers, decorators, cache store) explored by TLC; every history replayed on the compiled generated container linked with the real runtime; object graphs compared up to identity renaming",
+                text="TLC enumerates all choice vectors differing from a base service in at most two of: creation method (constructor, local constructor, error-returning constructor, by-value constructor, package variable, &composite, composite, type-only value/pointer, todo), two argument positions x argument form (int, uint64, float, bool, null, plain/padded strings, strings that look like other literals, @service, !tagged, !value, $gontainer, %param% of each type, multi-chunk, %%, function call, failing), fields (order, unexported), call/wither sequences, scope, decorators, getter; the expected object graph is computed by Container.tla; the probe reports the real graph.",
+                note="Trusted: TLC, concretiser, probe + fixture universe, canonicalisation of identities. Configurations the tool rejects / whose output does not compile are unobservable here (C11/C01)."),
+    "C04": dict(level="model_checking", tech="TLA+ run-time semantics (Container.tla TaggedOrder/Decorate) + Merge.tla, explored by TLC; every configuration (split over 1-3 files) replayed on the compiled container",
+                text="Exhaustive over three tagged services x priority assignments (absent, negative, equal, large) x second-tag carry bits x eight decorator sequences x 1/2/3-file splits; compares !tagged slices, GetTaggedBy order, decorator chains with payload <tag, service, object> and declared arguments; TaggedSorted and SplitInvariant are checked by TLC on the model.",
+                note="Trusted: as C02."),
+    "C13": dict(level="model_checking", tech="TLA+ spec of the API surface (API.tla) + Container.tla for getter results, enumerated by TLC; verdict, reflected method set with signatures, names and the result of calling every generated method compared on the compiled container",
+                text="Exhaustive over getter (incl. every container method name, the embedded field, Must-prefixed, InContext-suffixed, duplicates) x type form x must_getter x default_must_getter x independent meta names x role of a second service; NoCollision is checked by TLC on the model.",
+                note="Trusted: as C02; reflection in the probe reads the method set of the generated type."),
+    "C15": dict(level="model_checking", tech="TLA+ run-time semantics with mutable definitions (Container.tla Apply: OverrideParam/OverrideService, lazy cached parameters) explored by TLC over all short histories; each replayed on the compiled container",
+                text="32 configurations (every subset of two parameters and two services marked todo, todo services with inert attributes, an alias parameter, a counted function parameter) x every history of length 3 (thorough 4) over nine operations; results, documented error texts, object graphs and function invocation counters (zero after construction) are compared; TodoFails and LazyParams are checked by TLC on the model.",
+                note="Trusted: as C02."),
     "C10": dict(level="fault_enumeration", tech="TLA+ state machine of the build pipeline (Pipeline.tla) model-checked by TLC over fault/defect/flag/output-path scenarios; every scenario replayed on the real command; every run's own step report validated as a trace against the spec (Trace_Pipeline)",
                 text="TLC explores Pipeline.tla over scenarios = outcome per -i pattern (no match, invalid glob, one/two good files, directory, unparsable YAML, wrong node kind, same file twice) x defect-class sets x flags x state of the -o path (absent, existing, missing directory, is a directory, below a regular file), checking ExitIff, Untouched, CountMatch, OneFailLast, InOrder, WriteLast on all states. Each scenario is realised in a private directory and run in-process (a sample as a real process); exit status, failing step, rule statuses, numbered-list length and a before/after digest of the whole directory are compared; all runs are validated by TLC as traces.",
                 note="Trusted: TLC, scenario realisation, report parser, directory snapshots. Faults that need a non-root user or a full disk are not injected."),
